@@ -502,15 +502,15 @@ def run_real(cli, case, mode="exec"):
             return p.returncode, p.stdout, p.stderr
         except subprocess.TimeoutExpired as e:
             return "timeout", e.stdout or b"", e.stderr or b""
-    if TIMEOUTS["n"] >= 3:
-        # pdsh has hung three times in this run (each time confirmed by a long second wait): from now on one short
+    if TIMEOUTS["n"] >= 2:
+        # pdsh has hung twice in this run (each time confirmed by a long second wait): from now on one short
         # wait per case, so that a tree that spins does not make the run take hours
         rc, out, err = go(4)
     else:
         rc, out, err = go(case.timeout)
         if rc == "timeout":
             # a loaded machine is not a spinning pdsh: ask again with plenty of time
-            rc, out, err = go(max(case.timeout * 6, 30))
+            rc, out, err = go(30)
     if rc == "timeout":
         TIMEOUTS["n"] += 1
         return "timeout", None, b""
@@ -692,7 +692,7 @@ def judge_one(ctx, cli, oracle, case, d2, dist, shrinking, m, s, bad, mode):
 def shrink(ctx, cli, oracle, case, d2, tag, mode="exec"):
     """drop items one at a time while the same kind of problem stays; options rewritten plainly"""
     ctx.nshrunk = getattr(ctx, "nshrunk", 0) + 1
-    if ctx.nshrunk > 6 or case.wcoll_env:      # ($WCOLL cases are short; their options are not rewritten)
+    if ctx.nshrunk > 6 or case.wcoll_env or TIMEOUTS["n"] > 0:      # a tree that hangs is not shrunk (every try waits); $WCOLL cases are short
         return case
     import random
     rng = random.Random(1)
@@ -938,8 +938,8 @@ def run(ctx):
             ctx.broken.append(("C-BROKEN", "check machinery", repr(e)))
             pres, cases = [], []
         for case, prof, pre in zip(cases, profs, pres):
-            if TIMEOUTS["n"] >= 25:
-                ctx.broken.append(("C-BROKEN", "real pdsh", "pdsh did not answer 25 times in this run (each reported as an "
+            if TIMEOUTS["n"] >= 12:
+                ctx.broken.append(("C-BROKEN", "real pdsh", "pdsh did not answer 12 times in this run (each reported as an "
                                    "offender): the remaining %d cases were not executed" % (len(cases) - cov["evaluations"])))
                 break
             cov["evaluations"] += 1
